@@ -1646,7 +1646,14 @@ def functors(F, R):
     built from the parameters in order; Call/Call2 store parameter i in field i and invoke FCT()(fields in order) exactly once."""
     def unc(f, i):
         n = f.nodes[i] if i else None
-        while n and n['k'] in ('icast', 'cast', 'paren', 'tmp'): n = f.nodes[n['e']]
+        for _ in range(8):
+            while n and n['k'] in ('icast', 'cast', 'paren', 'tmp'): n = f.nodes[n['e']]
+            # a local with exactly one definition stands for its initialiser (`bool r = T1()(..); return r || T2()(..);`)
+            if n and n['k'] == 'ref' and n.get('dk') == 'local':
+                defs = [v['init'] for m in f.nodes if m and m['k'] == 'decl' for v in m['vars'] if v['n'] == n['n'] and v.get('hasinit')]
+                asg = [m for m in f.nodes if m and m['k'] == 'asg' and (f.nodes[m['lhs']] or {}).get('n') == n['n']]
+                if len(defs) == 1 and not asg: n = f.nodes[defs[0]]; continue
+            break
         return n
     def guard_call(f, i, T, pnames):
         """node i is T()(params in order)"""
